@@ -1,6 +1,6 @@
 #!/bin/bash
 # run every registered quick (or $1=thorough) check on the current tree; print one line each
-cd /verif
+cd "$(dirname "$0")/.."
 tier=${1:-quick}
 for id in $(python3 -c "import json;print(' '.join(c['property_id'] for c in json.load(open('MANIFEST.json'))['checks']))"); do
   s=$(date +%s)
